@@ -290,6 +290,14 @@ Theorem c17_quote_mode_is_per_query : forall ex outs ps rule sc suffix,
 Proof. exact quote_mode_is_per_query. Qed.
 Print Assumptions c17_quote_mode_is_per_query.
 
+(* an indented binding whose value is, or evaluates to, the EMPTY string is recorded like any other and shadows the
+   rule-level text and the file-level value of its name: the lookup finds the binding, not its emptiness *)
+Theorem c17_empty_build_binding_shadows : forall sc n v ps fuel ex outs rule sc' esc active,
+  ~ special_name n -> fst (eval_in_scope sc v) = [] ->
+  lookup_var (S fuel) (mkCtx ex outs (fst (build_bindings sc [BBind n v] ps)) rule sc' esc) active n = ([], []).
+Proof. exact empty_build_binding_shadows. Qed.
+Print Assumptions c17_empty_build_binding_shadows.
+
 (* ---------------------------------------------------------------- lexer and shell-quoting part *)
 Module Lex.
 From LLB Require Import Base.Bytes Parse.NinjaLex Parse.NinjaLexProofs Path.ShellQuote Path.ShellQuoteProofs
